@@ -174,9 +174,13 @@ class TriggerHandler:
                 for action in actions:
                     try:
                         ctx: ActionContext
-                        with trigger_context.action_context(action) as ctx:
-                            if ctx.can_trigger():
-                                ctx.process()
+                        # other threads can be at the same tracepoint: the limits only hold if the check, the
+                        # processing and the record (on exit of the context) are one step. The lock is held by a
+                        # 'with' statement, so that no failure in between can leave it locked.
+                        with action.lock:
+                            with trigger_context.action_context(action) as ctx:
+                                if ctx.can_trigger():
+                                    ctx.process()
                     except BaseException:
                         logging.exception("Cannot process action %s", action)
         except BaseException:
